@@ -220,18 +220,29 @@ func checkC20(res *Result) {
 		if len(gets) == 1 {
 			t := ssa.Value(extractOf(gets[0].(*ssa.Call), 0))
 			n := 0
+			getErr := ssa.Value(extractOf(gets[0].(*ssa.Call), 1))
+			missing := func(s *factState) bool {
+				return s != nil && s.facts[fact{ff.canon(s, t), fNIL, ""}] && s.facts[fact{ff.canon(s, getErr), fNIL, ""}]
+			}
 			for _, r := range returnsIn(fn) {
-				if !ff.has(r, t, fNIL, "") || !ff.reachable(r) {
+				if !ff.reachable(r) {
 					continue
 				}
-				if !ff.has(r, extractOf(gets[0].(*ssa.Call), 1), fNIL, "") {
-					continue
-				}
-				n++
-				ev := ff.resolve(r, r.Results[1])
 				hs := hist.at[r]
 				clean := len(hs) == 1 && hs[wh{}]
-				res.check(isSentinel(ev, "ErrNotFound") && clean, "C20-R4", fname(fn), p.pos(r), "a missing value yields ErrNotFound with nothing written", fmt.Sprintf("returns %s; histories %s", valueLabel(ev), hs))
+				if ff.has(r, t, fNIL, "") && ff.has(r, getErr, fNIL, "") {
+					n++
+					ev := ff.resolve(r, r.Results[1])
+					res.check(isSentinel(ev, "ErrNotFound") && clean, "C20-R4", fname(fn), p.pos(r), "a missing value yields ErrNotFound with nothing written", fmt.Sprintf("returns %s; histories %s", valueLabel(ev), hs))
+					continue
+				}
+				// the missing-value exit may share its return with other failures (a helper's exits
+				// merged before the caller's `if err != nil { return }`): look at what the merge
+				// delivers along the edges on which Get returned (nil, nil)
+				for _, ev := range valuesAlong(ff, r.Results[1], missing, 0) {
+					n++
+					res.check(isSentinel(ev, "ErrNotFound") && clean, "C20-R4", fname(fn), p.pos(r), "a missing value yields ErrNotFound with nothing written", fmt.Sprintf("returns %s; histories %s", valueLabel(ev), hs))
+				}
 			}
 			res.check(n == 1, "C20-R4", fname(fn), p.pos(fn), "there is a return for the missing-value case", fmt.Sprintf("%d such returns", n))
 			// every use of t as a receiver/argument after that is in the non-nil region
@@ -273,4 +284,36 @@ func isCallNamedOrLabel(E *Effects, v ssa.Value, name string) bool {
 // and small helper functions in between do not matter.
 func dateChain(v ssa.Value, clockParam string) (bool, string) {
 	return dateTerm(termOf(v, nil, 0), clockParam)
+}
+
+
+// valuesAlong: the values a merge delivers along those incoming edges whose state satisfies
+// pred (followed through nested merges).
+func valuesAlong(ff *FuncFacts, v ssa.Value, pred func(*factState) bool, depth int) []ssa.Value {
+	ph, ok := v.(*ssa.Phi)
+	if !ok || depth > 6 {
+		return nil
+	}
+	es := ff.edgeIn[ph.Block()]
+	if len(es) != len(ph.Edges) {
+		return nil
+	}
+	var out []ssa.Value
+	for i, e := range ph.Edges {
+		if es[i] == nil {
+			continue
+		}
+		if pred(es[i]) {
+			if _, isPhi := e.(*ssa.Phi); isPhi {
+				if sub := valuesAlong(ff, e, func(*factState) bool { return true }, depth+1); len(sub) > 0 {
+					out = append(out, sub...)
+					continue
+				}
+			}
+			out = append(out, e)
+		} else if _, isPhi := e.(*ssa.Phi); isPhi {
+			out = append(out, valuesAlong(ff, e, pred, depth+1)...)
+		}
+	}
+	return out
 }
